@@ -673,7 +673,9 @@ func (h *httpServerHandler) handleGet(ctx context.Context, w http.ResponseWriter
 	}
 	h.getSSEConnectionsLock.Unlock()
 	// Wait for a writer that is inside a write and keep later ones away: the response writer
-	// must not be touched once this handler has returned.
+	// must not be touched once this handler has returned. That writer may be stuck (the peer
+	// stopped reading this stream): expire its write, so that the wait does not depend on the peer.
+	_ = http.NewResponseController(w).SetWriteDeadline(time.Now())
 	conn.writeLock.Lock()
 	conn.closed = true
 	conn.writeLock.Unlock()
